@@ -1,8 +1,10 @@
 #!/bin/sh
 # Run every property's check in sequence (tier = $1, default quick); prints one summary line per property.
+# ORDER="C09 C10 ..." overrides the order / selection.
 T=${1:-quick}
 cd "$(dirname "$0")"
-for p in C01 C02 C03 C04 C05 C06 C07 C08 C09 C10 C11 C12 C13 C14 C15 C16 C17 C18 C19 C20; do
+for p in ${ORDER:-C01 C02 C03 C04 C05 C06 C07 C08 C09 C10 C11 C12 C13 C14 C15 C16 C17 C18 C19 C20}; do
+  s=$(date +%s)
   ./check $p --tier $T > /tmp/vf_all_$p.log 2>&1; rc=$?
-  echo "$p rc=$rc $(tail -1 /tmp/vf_all_$p.log)"
+  echo "$p rc=$rc $(tail -1 /tmp/vf_all_$p.log) [$(( $(date +%s) - s )) s]"
 done
